@@ -1,4 +1,121 @@
-/- Driver for C16 (stub: not built yet). -/
+/-
+Driver for C16.  Lines (after the leading `C16`):
+
+  meta <u:T|F> <k:none|numpy|pandas> <base:N|A>:<dims> <B rows> <op> ...
+      dims  = instances `|`, per instance the series length of each column `,` (`_` = no instance)
+      B     = canonical rows of the batch output of the REAL fitted estimator, `|`-separated, opaque
+      op    = sel:<idx list>            rows the model predicts for the batch restricted to positions idx
+            | cont                      the same data in the other container at apply time
+            | contfit:<u>:<k>:<dims>    the same training data in the other container at fit time
+    answer: b=<ok|E:value> r0=<rows|E:value> r1=...
+  shape <term>      term = R | G<term> | C<term><term> | A<term><term> | S | O | D | X      answer: rowwise=T|F
+  ens mean <table>;<table>;...   member-major tables (rows `|`, values `,`)   answer: rows of per-instance column means
+-/
+import SkVerif.Model.C16RowWise
+import SkVerif.Drv.Parse
 namespace SkVerif.Drv.C16
-def handle (_toks : List String) : String := "bad-op"
+open SkVerif SkVerif.C16 SkVerif.Drv
+
+def parseDims? (s : String) : Option (List Inst) :=
+  if s == "_" then some [] else
+  (s.splitOn "|").mapM (fun inst =>
+    if inst == "e" then some [] else
+    (parseNatList? inst).map (fun ls => ls.map (fun n => List.replicate n (0 : Rat))))
+
+def parseCfg? (u k : String) : Option CheckCfg := do
+  let u ← parseBool? u
+  match k with
+  | "none" => some { univariate := u }
+  | "numpy" => some { univariate := u, toNumpy := true }
+  | "pandas" => some { univariate := u, toPandas := true }
+  | _ => none
+
+def parseBase? (s : String) : Option (Bool × List Inst) :=
+  match s.splitOn ":" with
+  | ["N", d] => (parseDims? d).map (fun r => (false, r))
+  | ["A", d] => (parseDims? d).map (fun r => (true, r))
+  | _ => none
+
+def mkX (asArr : Bool) (rows : List Inst) : XIn := if asArr then .arr3 rows else .nested rows
+
+def showRows (rows : List String) : String := if rows.isEmpty then "_" else "|".intercalate rows
+
+def parseRows (s : String) : List String := if s == "_" then [] else s.splitOn "|"
+
+def instancesOf (cfg : CheckCfg) (X : XIn) : Option (List Inst) :=
+  match checkX cfg X with
+  | .ok X' => some X'.instances
+  | .error _ => none
+
+/-- prediction for the same data handed over in both containers: equal instances → the batch output -/
+def bothContainers (cfg : CheckCfg) (rows : List Inst) (B : List String) : String :=
+  match instancesOf cfg (.nested rows), instancesOf cfg (.arr3 rows) with
+  | some a, some b => if a.map (·.map List.length) == b.map (·.map List.length) then showRows B else "DIFF"
+  | none, none => "E:value"
+  | _, _ => "DIFF"
+
+def runOp (cfg : CheckCfg) (asArr : Bool) (rows : List Inst) (B : List String) (op : String) : Option String :=
+  match op.splitOn ":" with
+  | ["sel", idx] => do
+      let idx ← parseNatList? idx
+      match applyFitted cfg (fun _ => ()) ((mkX asArr rows).select idx) with
+      | .ok _ => some (showRows (select idx B))
+      | .error _ => some "E:value"
+  | ["cont"] => some (bothContainers cfg rows B)
+  | ["contfit", u, k, d] => do
+      let cfgF ← parseCfg? u k
+      let rf ← parseDims? d
+      some (bothContainers cfgF rf B)
+  | _ => none
+
+def parseShapeF : Nat → List Char → Option (Shape × List Char)
+  | 0, _ => none
+  | fuel + 1, cs =>
+    match cs with
+    | 'R' :: r => some (.rows 0, r)
+    | 'S' :: r => some (.stat 0, r)
+    | 'O' :: r => some (.sortInst 0, r)
+    | 'D' :: r => some (.dictByValue 0, r)
+    | 'X' :: r => some (.unknown 0, r)
+    | 'G' :: r => do let (s, r) ← parseShapeF fuel r; some (.guarded s, r)
+    | 'C' :: r => do let (s, r) ← parseShapeF fuel r; let (t, r) ← parseShapeF fuel r; some (.comp s t, r)
+    | 'A' :: r => do let (s, r) ← parseShapeF fuel r; let (t, r) ← parseShapeF fuel r; some (.agg 0 s t, r)
+    | _ => none
+
+def parseShape (cs : List Char) : Option (Shape × List Char) := parseShapeF (cs.length + 1) cs
+
+def parseTable? (s : String) : Option (List (List Rat)) :=
+  if s == "_" then some [] else (s.splitOn "|").mapM parseRatList?
+
+def colMean (rows : List (List Rat)) : List Rat :=
+  let w := (rows.headD []).length
+  (List.range w).map (fun j => (rows.map (fun r => r.getD j 0)).sum / (rows.length : Rat))
+
+def handle (toks : List String) : String :=
+  match toks with
+  | "meta" :: u :: k :: base :: b :: ops =>
+    match parseCfg? u k, parseBase? base with
+    | some cfg, some (asArr, rows) =>
+      let B := parseRows b
+      let bOk := match checkX cfg (mkX asArr rows) with | .ok _ => "ok" | .error _ => "E:value"
+      match ops.mapM (runOp cfg asArr rows B) with
+      | some outs =>
+        let outs := if bOk == "ok" then outs else outs.map (fun _ => "E:value")
+        " ".intercalate (s!"b={bOk}" :: (outs.zipIdx.map (fun (o, i) => s!"r{i}={o}")))
+      | none => "bad-op"
+    | _, _ => "bad-op"
+  | ["shape", t] =>
+    match parseShape t.toList with
+    | some (s, []) => s!"rowwise={showBool s.rowWise}"
+    | _ => "bad-op"
+  | ["ens", "mean", tbls] =>
+    match (tbls.splitOn ";").mapM parseTable? with
+    | some ms =>
+      let n := (ms.headD []).length
+      let members : List (List Unit → List (List Rat)) := ms.map (fun t => fun _ => t)
+      let out := ensembleBatch members colMean (List.replicate n ())
+      showRows (out.map showRatList)
+    | none => "bad-op"
+  | _ => "bad-op"
+
 end SkVerif.Drv.C16
